@@ -1810,3 +1810,86 @@ func runAxis1(m *Model, r *RuleResult) {
 		})
 	}
 }
+
+// ---------- DEQ-1 ----------
+
+func init() {
+	register(&Rule{
+		ID: "DEQ-1",
+		Doc: "queue positions stay valid: the funnel keeps a raw position of the double-ended queue (the apex, taken from Front()/Back()) across pushes and pops and compares it with later positions, " +
+			"so the queue must never move its items: the backing storage of collectors.Deque is assigned only when a queue is constructed (no reallocation, no re-centring copy), and the front and back positions move by exactly one per operation",
+		Floor: 3,
+		Ctl:   []string{"internal__collectors__deq1.go.txt"},
+		Run:   runDeq1,
+	})
+}
+
+func runDeq1(m *Model, r *RuleResult) {
+	m.fxInit()
+	isDequeRecv := func(t types.Type) bool {
+		return strings.HasPrefix(namedKey(derefType(t)), "internal/collectors.Deque")
+	}
+	for _, f := range m.Src {
+		if shortPkg(pkgPathOf(f)) != "internal/collectors" || len(f.Blocks) == 0 {
+			continue
+		}
+		var bad []string
+		nstores := 0
+		eachInstr(f, func(in ssa.Instruction) {
+			switch x := in.(type) {
+			case *ssa.Store:
+				fa, ok := x.Addr.(*ssa.FieldAddr)
+				if !ok || !isDequeRecv(fa.X.Type()) {
+					return
+				}
+				st := structOf(derefType(fa.X.Type()))
+				if st == nil {
+					return
+				}
+				fld := st.Field(fa.Field)
+				nstores++
+				if _, isSlice := fld.Type().Underlying().(*types.Slice); isSlice {
+					if !isFreshObject(fa.X, 0) {
+						bad = append(bad, "the backing storage ("+fld.Name()+") is replaced at "+m.Pos(in.Pos()))
+					}
+					return
+				}
+				if b, ok := fld.Type().Underlying().(*types.Basic); ok && b.Info()&types.IsInteger != 0 && !isFreshObject(fa.X, 0) {
+					// position fields move by one
+					okStep := false
+					if bo, ok := x.Val.(*ssa.BinOp); ok && (bo.Op == token.ADD || bo.Op == token.SUB) {
+						if c, ok := bo.Y.(*ssa.Const); ok && c.Value != nil && c.Int64() == 1 {
+							if ld, ok := bo.X.(*ssa.UnOp); ok && ld.Op == token.MUL {
+								if fa2, ok := ld.X.(*ssa.FieldAddr); ok && fa2.Field == fa.Field && fa2.X == fa.X {
+									okStep = true
+								}
+							}
+						}
+					}
+					if !okStep {
+						bad = append(bad, "the position "+fld.Name()+" is set to "+x.Val.String()+" at "+m.Pos(in.Pos())+" (not a step of one)")
+					}
+				}
+			case *ssa.Call:
+				if b, ok := x.Call.Value.(*ssa.Builtin); ok && b.Name() == "copy" && len(x.Call.Args) == 2 {
+					if ld, ok := x.Call.Args[0].(*ssa.UnOp); ok {
+						if fa, ok := ld.X.(*ssa.FieldAddr); ok && isDequeRecv(fa.X.Type()) && !isFreshObject(fa.X, 0) {
+							bad = append(bad, "items are copied within the backing storage at "+m.Pos(in.Pos()))
+						}
+					}
+				}
+			}
+		})
+		if nstores == 0 && len(bad) == 0 {
+			continue
+		}
+		key := "stable-positions:" + funcKey(f)
+		ctl := m.FuncIsPosctl(f)
+		if len(bad) == 0 {
+			r.add(Obligation{Key: key, Pos: m.Pos(f.Pos()), Desc: "stores into the queue: storage assigned at construction only, positions move by one", Verdict: "holds", Control: ctl})
+		} else {
+			r.add(Obligation{Key: key, Pos: m.Pos(f.Pos()), Desc: "the queue never moves its items", Verdict: "violation",
+				Detail: strings.Join(uniq(bad), "; ") + ": positions handed out earlier by Front()/Back() (the funnel's apex) no longer name the same item, and the funnel picks the wrong orientation test", Control: ctl})
+		}
+	}
+}
